@@ -40,5 +40,7 @@ pub fn run(tier: &str, seed: u64, only: Option<&str>) -> Run {
     }
     // taiko difficulty-object construction, colour / rhythm preprocessing (TKPRE lines)
     crate::taikopre::run(&mut run, tier, seed, only, false);
+    // osu!catch end to end (PIPE catch lines)
+    crate::pipe_catch::run(&mut run, tier, seed, only);
     run
 }
